@@ -6,12 +6,6 @@ From Coq Require Import ZArith QArith Qabs Lia Lqa Bool List.
 From UV Require Import RoundSpec RoundNE PositMono PositMono2 PositVal PositPad PositSpec Num PositModel.
 Local Open Scope Z_scope.
 
-(* floor(log2 (a/b)) for positive a b *)
-Definition qlog2 (a b : Z) : Z :=
-  let s0 := Z.log2 a - Z.log2 b in
-  let ge := if Z.leb 0 s0 then Z.leb (Z.shiftl b s0) a else Z.leb b (Z.shiftl a (- s0)) in
-  if ge then s0 else s0 - 1.
-
 (* guess of the largest magnitude pattern whose value is <= x (x > 0) *)
 Definition pguess (n es : Z) (x : Q) : Z :=
   let L := n - 1 in
